@@ -253,6 +253,12 @@ def check_protein(case):
     rng = np.random.default_rng(case["seed"])
     m1 = build_molecule(_protein("PROT", case["sizes1"], case["names"], rng))
     m2 = build_molecule(_protein("PROT", case["sizes2"], case["names"], rng))
+    if case["seed"] % 3 == 0:
+        # atom and residue numbers as a large coordinate file shows them: not starting at 1, wrapping 99999 -> 0 inside
+        # the molecule (restraints are positions in the molecule, never file numbers)
+        for mol, off in ((m1, 99990 + case["seed"] % 7), (m2, 99985 + case["seed"] % 11)):
+            mol.atoms_ids = [(off + k) % 100000 for k in range(len(mol))]
+            mol.resids = [(off + 3 * r) % 100000 for r in range(len(mol.resids))]
     label = "residue sizes %r vs %r" % (case["sizes1"], case["sizes2"])
     if case["unequal"]:
         try:
